@@ -7,7 +7,7 @@ ALL = ["C%02d" % i for i in range(1, 21)]
 CHECKS = {
   "C08": dict(
     technique="property-based testing with a recording generator (proptest): the source generator records every dependency it writes with its byte range; the analyser's report must equal the record; position lookup through a one-module graph; round trip of every reported range over the repository's spec corpus, a metamorphic trivia-insertion layer over mutated corpus sources, and (thorough tier) a coverage-guided libFuzzer target with the range round-trip oracle inside",
-    text="Generated programs over every dependency-bearing form for 11 media types (incl. CommonJS flavours and .d.mts / .d.cts) with non-ASCII / astral trivia, CRLF, shebang, escapes, templates, nesting in functions / classes / namespaces / declare-module blocks, pragma styles and JSDoc forms. Oracles: the multiset of reported dependencies (kind, cooked text, attributes, dynamic argument shape, types pragma) equals the record - every one once, nothing else; each reported range converted with an independent line/character counter equals the recorded byte range; Dependency::includes finds exactly the owning dependency and its range for positions inside a site; corpus layer: the source slice at every reported range is the specifier; mutated-corpus layer (metamorphic): inserting trivia (a comment line with non-ASCII / astral / U+2028 text, a comment before an import or export statement, a shebang, CR before every LF) into a corpus source leaves the reported dependencies unchanged and moves every reported range by exactly the bytes inserted before it. Exploration only.",
+    text="Generated programs over every dependency-bearing form for 11 media types (incl. CommonJS flavours and .d.mts / .d.cts) with non-ASCII / astral trivia, CRLF, shebang, comment-only modules, escapes, templates, nesting in functions / classes / namespaces / declare-module blocks, pragma styles and JSDoc forms. Oracles: the multiset of reported dependencies (kind, cooked text, attributes, dynamic argument shape, types pragma) equals the record - every one once, nothing else; each reported range converted with an independent line/character counter equals the recorded byte range; Dependency::includes finds exactly the owning dependency and its range for positions inside a site; corpus layer: the source slice at every reported range is the specifier; mutated-corpus layer (metamorphic): inserting trivia (a comment line with non-ASCII / astral / U+2028 text, a comment before an import or export statement, a shebang, CR before every LF) into a corpus source leaves the reported dependencies unchanged and moves every reported range by exactly the bytes inserted before it. Exploration only.",
     design_ref="DESIGN.md §4 C08",
     note="Trusted: the generator's own bookkeeping of byte offsets; swc as the parser on the implementation side only.",
   ),
@@ -19,7 +19,7 @@ CHECKS = {
   ),
   "C10": dict(
     technique="property-based testing (proptest) with a grammar over emitted ASTs: every node of every emitted module must be derivable from the 'declaration-only, explicitly typed' grammar, else a diagnostic must exist; generated packages plus the spec corpus",
-    text="Generated packages whose public API mixes annotated, inferable and non-inferable declarations over every declaration and member kind (functions, overloads, arrow/fn initialisers, classes with ctor/param props/accessors/private/#private/decorators, enums, namespaces, default exports, destructuring). Oracle: visitor over the emitted AST accepting only empty or single-placeholder bodies, declarations at statement level, literal-like or fully annotated function initialisers, explicit parameter and return types, `any`-typed TS-private members, no #private, no decorators; a package without output must carry diagnostics on every entrypoint. Exploration only.",
+    text="Generated packages whose public API mixes annotated, inferable and non-inferable declarations over every declaration and member kind (functions, overloads, arrow/fn initialisers, classes with ctor/param props/decorated ctor params/accessors incl. TypeScript-private ones/private/#private/decorators, enums, namespaces, default exports, destructuring). Oracle: visitor over the emitted AST accepting only empty or single-placeholder bodies, declarations at statement level, literal-like or fully annotated function initialisers, explicit parameter and return types, `any`-typed TS-private members, no #private, no decorators; a package without output must carry diagnostics on every entrypoint. Exploration only.",
     design_ref="DESIGN.md §4 C10",
     note="Trusted: swc parser on the observing side; the grammar (engine/src/props/c10.rs) is the property statement transcribed.",
   ),
@@ -37,13 +37,13 @@ CHECKS = {
   ),
   "C13": dict(
     technique="property-based round-trip and differential testing (proptest): ModuleInfo -> JSON -> ModuleInfo on analyser-produced values (thorough tier: also inside a coverage-guided libFuzzer target over arbitrary parsable text); moduleGraph1 rendering upgraded vs the moduleGraph2 original; registry built from embedded module info vs from parsing",
-    text="(a) every ModuleInfo the analyser produces from generated programs round-trips through its JSON form (equality and fixed point); (b) the legacy rendering of the same value (types specifier replaced by the leading comment) upgrades to the same @deno-types text and range (empty attribute clauses and leading comments included); (c) generated registries published with moduleGraph2 computed by this analyser vs without, with a cache image deciding cached/uncached content per file, under all graph kinds: equal serialised graph, source texts and errors. Exploration only.",
+    text="(a) every ModuleInfo the analyser produces from generated programs round-trips through its JSON form (equality and fixed point); (b) the legacy rendering of the same value (types specifier replaced by the leading comment) upgrades to the same @deno-types text and range (empty attribute clauses and leading comments included); (c) generated registries published with moduleGraph2 computed by this analyser vs without, with a cache image deciding cached/uncached content per file and (40%) text / bytes asset imports between package files, under all graph kinds: equal serialised graph, source texts and errors. Exploration only.",
     design_ref="DESIGN.md §4 C13",
     note="Trusted: serde_json; the registry materialiser (engine/src/registry.rs).",
   ),
   "C05": dict(
     technique="property-based testing with log invariants (proptest): every Loader::load / ensure_cached call and every Locker call of a build over generated remote + registry worlds and lockfile images is checked against the expected-checksum table",
-    text="Generated worlds: a remote entry module importing remote modules on every load path (static, dynamic, text asset, type-only, redirecting URL, declaration file, http:, UTF-8 BOM, UTF-16 with charset) plus jsr: requirements and https://jsr.io/ URLs of a generated registry (with / without embedded module info and cache image); lockfile entries per URL and per version manifest absent / matching / mismatching; registry files optionally tampered. Oracles: each content-consuming call presents the known checksum; rejected content is never a module, is an integrity error, with exactly one cache-bypassing retry for non-registry URLs and none for registry files; checksummed redirect rejected; new remote modules and manifests recorded with SHA-256 of the served bytes (or lockfileChecksum), never with two different values; existing entries never overwritten. Exploration only.",
+    text="Generated worlds: a remote entry module importing remote modules on every load path (static, dynamic, text asset, type-only, redirecting URL, declaration file, http:, UTF-8 BOM, UTF-16 with charset) plus jsr: requirements and https://jsr.io/ URLs of a generated registry (with / without embedded module info and cache image); lockfile entries per URL and per version manifest absent / matching / mismatching; registry files optionally tampered. Oracles: each content-consuming call presents the known checksum; rejected content is never a module, is an integrity error, with exactly one cache-bypassing retry for non-registry URLs and none for registry files; checksummed redirect rejected; new remote modules and every version manifest the build loaded recorded with SHA-256 of the served bytes (or lockfileChecksum), never with two different values; existing entries never overwritten. Exploration only.",
     design_ref="DESIGN.md §4 C05",
     note="Trusted: the harness loader's checksum verification (LoaderChecksum::check_source) and call logs; sha2.",
   ),
@@ -55,7 +55,7 @@ CHECKS = {
   ),
   "C07": dict(
     technique="property-based testing (proptest) against a reference computation over generated registries: redirects, used exports, per-package dependency sets, package URL round trip",
-    text="Generated registries (package names that are prefixes of one another, prerelease versions, exports as string / map / with non-string values, files importing by relative path, jsr:, npm:, https registry URL, statically / dynamically / as types) and importing programs; for every jsr: specifier the redirect equals package_url(mapping).join(export value) or an UnknownExport error listing exactly the string exports; package_exports and packages_with_deps equal the reference; package_url <-> name@version round-trips and no graph URL is attributed to another package. Exploration only.",
+    text="Generated registries (package names that are prefixes of one another, prerelease versions, exports as string / map / with non-string values, files importing by relative path, jsr:, npm:, https registry URL, statically / dynamically / as types) and importing programs; for every jsr: specifier the redirect equals package_url(mapping).join(export value) or an UnknownExport error listing exactly the string exports; package_exports and packages_with_deps equal the reference; package_url <-> name@version round-trips, no graph URL is attributed to another package, and look-alike URLs of every package file (other host or scheme, registry host as a prefix, path under a prefix, other spellings of the version) are attributed exactly as an independent re-statement says. Exploration only.",
     design_ref="DESIGN.md §4 C07",
     note="Trusted: deno_semver specifier parsing; the dependency sets are derived from the graph's recorded dependencies (validated by C01).",
   ),
@@ -80,13 +80,13 @@ CHECKS = {
   "C03": dict(
     category="fault_enumeration",
     technique="fault injection driven by property-based generation (proptest) plus exhaustive single-fault enumeration on small worlds; invariant, fault->error and metamorphic isolation oracles",
-    text="Every load call of the fault-free build is a fault position. Exhaustive layer: for base worlds with <= 7 load calls every (call x fault kind) single fault is injected; sampled layer: plans of 0-4 faults on larger worlds plus npm resolver failures, a generated registry (faults on package metadata, version manifests, files, deferred content loads of files with embedded module information, the registry entry added by a second build()). Oracles: no panic / no hang (watchdog), no pending entry in the serialised graph, every fired missing/error fault has an error entry with a referrer, a package file answered with a redirect has the error under its own entry, and every module that does not depend on a faulted specifier is byte-identical to the fault-free build.",
+    text="Every load call of the fault-free build is a fault position. Exhaustive layer: for base worlds with <= 7 load calls every (call x fault kind) single fault is injected; sampled layer: plans of 0-4 faults on larger worlds plus npm resolver failures, a generated registry (faults on package metadata, version manifests, files, deferred content loads of files with embedded module information, the registry entry added by a second build()). Oracles: no panic / no hang (watchdog), no pending entry in the serialised graph, every fired missing/error fault has an error entry with a referrer, a package file answered with a redirect has the error under its own entry, an injected npm failure is an error entry with a referrer (a failing requirement everywhere, a dependency-graph failure behind dynamic-only imports), and every module that does not depend on a faulted specifier is byte-identical to the fault-free build.",
     design_ref="DESIGN.md §4 C03",
     note="Trusted: harness loader and fault plan (engine/src/harness.rs); the dependence closure of the isolation relation (DESIGN §4 C03). The cache-only probe is answered 'not cached' or from a cache image, never faulted itself.",
   ),
   "C04": dict(
     technique="schedule exploration with a harness-owned scheduler: proptest-generated completion orders, re-runs with fresh hasher state, and exhaustive stateless DFS over all completion orders of small worlds; differential oracle against the identity schedule",
-    text="The loader's futures are gates released one at a time by the harness, so the interleaving is an input. Each world is built once ungated and then under drawn schedules and repeated runs; serialised graph, every error with its referrer, and lockfile writes must be identical. Exhaustive layer: all completion orders of small worlds (budgeted; evidence reports whether every tree was finished). More than half of the worlds carry a generated jsr registry (metadata, manifests, prefer-cached probing, packages sharing a failing npm dependency).",
+    text="The loader's futures are gates released one at a time by the harness, so the interleaving is an input. Each world is built once ungated and then under drawn schedules and repeated runs; serialised graph, every error with its referrer, and lockfile writes must be identical. A share of the worlds has code loads that wait behind outstanding text-asset loads of the same files and are issued together later. Exhaustive layer: all completion orders of small worlds (budgeted; evidence reports whether every tree was finished). More than half of the worlds carry a generated jsr registry (metadata, manifests, prefer-cached probing, packages sharing a failing npm dependency).",
     design_ref="DESIGN.md §4 C04",
     note="Trusted: the gate scheduler (engine/src/harness.rs::drive) and the pass-through executor (task interleavings beyond load completion order are not explored).",
   ),
@@ -98,19 +98,19 @@ CHECKS = {
   ),
   "C15": dict(
     technique="property-based testing against a reference model (proptest): ModuleGraph::walk vs a set-based reachability model over the graph's recorded dependencies, all 36 option combinations per graph",
-    text="Generated-input search with a reference-model oracle: the yielded set (both inclusions, no duplicates), the entry attached to each yielded specifier and the multiset of reported errors are compared with engine/src/refwalk.rs for every option combination, drawn root subsets and skip set; a quarter of the graphs are generated registry packages on which fast check has run (fast-check dependency maps). Exploration: bounded by the generated graphs.",
+    text="Generated-input search with a reference-model oracle: the yielded set (both inclusions, no duplicates), the entry attached to each yielded specifier and the multiset of reported errors are compared with engine/src/refwalk.rs for every option combination, drawn root subsets and skip set; a walk that does not return (hang while the walk runs, confirmed in a fresh process) is a violation; a quarter of the graphs are generated registry packages on which fast check has run (fast-check dependency maps). Exploration: bounded by the generated graphs.",
     design_ref="DESIGN.md §4 C15",
     note="Trusted: proptest; the reference walk (written from the WalkOptions rustdoc and the statement); graphs come from the shared world generator.",
   ),
   "C18": dict(
     technique="property-based metamorphic + differential testing (proptest): segment(R) vs the original graph (every dependency lookup, validation, error listing) and vs build(R)",
-    text="Generated-input search with two oracles: (a) metamorphic self-containment - every dependency of every module of the segment resolves (both type preferences) to the same module or error as in the original, same validation verdicts and error listings from the segment roots; (b) differential - entries, redirects and serialised modules equal a direct build of the segment roots when those were not roots of the original. Segment roots include redirect sources; some graphs are registry packages after fast check. Exploration only.",
+    text="Generated-input search with two oracles: (a) metamorphic self-containment - every dependency of every module of the segment resolves (both type preferences) to the same module or error as in the original, same validation verdicts and error listings from the segment roots, the same package-table answers for what its modules import; (b) differential - entries, redirects and serialised modules equal a direct build of the segment roots when those were not roots of the original. Segment roots include redirect sources; some graphs are registry packages after fast check. Exploration only.",
     design_ref="DESIGN.md §4 C18",
     note="Trusted: proptest and the harness loader. Known findings (context-sensitive acceptance of unknown/JSON answers, source-map assets) are listed in known_findings.json; domain restrictions are in the evidence assumptions.",
   ),
   "C19": dict(
     technique="property-based testing over generated histories (proptest): sequences of build() calls, rebuilds and edit+reload() rounds vs from-scratch builds",
-    text="Generated histories (partition of the roots into successive builds, rebuild of a known root, up to three rounds of source edits each followed by reload of the changed specifiers, named by their final specifier or by the head of a recorded redirect chain) checked against a from-scratch build of the same / the edited sources: equal entries, serialised modules and redirects for everything the fresh graph contains, untouched entries byte-identical, no change when a known root is built again; every other history shares one capturing analyser (parsed-source cache) between its builds and reloads. Exploration only.",
+    text="Generated histories (partition of the roots into successive builds, rebuild of a known root, up to three rounds of source edits each followed by reload of the changed specifiers, named by their final specifier or by the head of a recorded redirect chain) checked against a from-scratch build of the same / the edited sources: equal entries, serialised modules and redirects for everything the fresh graph contains, untouched entries byte-identical, no change when a known root is built again; a generated registry added by a later build() equals the at-once build in graph and per-package dependency sets (a tenth of the cases); every other history shares one capturing analyser (parsed-source cache) between its builds and reloads. Exploration only.",
     design_ref="DESIGN.md §4 C19",
     note="Trusted: proptest and the harness loader. Worlds carry no source-map URLs and `type` attributes only in two structural sub-domains (JSON targets every importer requests as json; code modules of a fixed class every importer requests as text / bytes assets and that may also be roots: the attribute class of a target must be stable over time); context-sensitive acceptance divergences are known findings.",
   ),
